@@ -182,6 +182,7 @@ def run(ctx, rep):
     rep.extra['member_pairs'] = npairs
     run_closure_rule(P, rep)
     run_expansion_rule(P, rep)
+    primitive_roundtrip_rule(P, rep)
 
 
 # written member -> restored member, when the two sides legitimately use different names
@@ -459,3 +460,78 @@ def run_expansion_rule(P, rep, rid='R-C10-4r'):
             rep.check(not cond, rid, '%s at line %s runs for every position of the run' % (callee, c.line), c.loc(), 'unconditional' if not cond else 'executed only when %s' % cond, function='state_read_content', construct='%s unconditional' % callee)
     if n < 3:
         raise AnalysisBroken('state_read_content: run loops of the reader not recognised (%d stores)' % n)
+
+
+def primitive_roundtrip_rule(P, rep, rid='R-C10-3r'):
+    """integer codecs of the content file: the reader primitive applied to the bytes produced by the writer primitive gives the
+    value back, for every boundary of the 7-bit groups (finite-domain interpretation of both functions; swrite is replaced by a
+    byte sink and the stream buffer by the captured bytes)"""
+    from .. import region as RG
+    lay = P.distructs.get('stream')
+    if not lay:
+        raise AnalysisBroken('struct stream not found')
+    off = {m['name']: m['off'] for m in lay['members']}
+    rep.rule(rid, 'sget*(sput*(v)) == v and consumes exactly the bytes written, for every 7-bit group boundary of 32/64-bit values and for the LE32 codec', 60)
+    def vals(bits):
+        vs = {0, 1, (1 << bits) - 1, (1 << bits) - 2, 1 << (bits - 1)}
+        for k in range(7, bits, 7):
+            vs |= {(1 << k) - 1, 1 << k, (1 << k) + 1}
+        return sorted(v for v in vs if 0 <= v < (1 << bits))
+    for put, get, bits in (('sputb32', 'sgetb32', 32), ('sputb64', 'sgetb64', 64), ('sputble32', 'sgetble32', 32)):
+        pf, gf_ = P.fn(put), P.fn(get)
+        rep.analysed(pf, gf_)
+        for v in vals(bits):
+            out = []
+            def ext(ins, args):
+                if ins.callee == 'swrite':
+                    p_, n_ = args[0], args[1]
+                    for k in range(n_):
+                        out.append(R.mem[(p_.reg, p_.off + k)] & 0xff)
+                    return (0,)
+                if ins.callee == 'sgetc_uncached':
+                    return (0xffffffff,)
+                if ins.callee == 'sread':
+                    sp, dp, n_ = args
+                    pos = R.mem[(sp.reg, off['pos'])]
+                    for k in range(n_):
+                        R.mem[(dp.reg, dp.off + k)] = R.mem[(pos.reg, pos.off + k)]
+                    R.mem[(sp.reg, off['pos'])] = RG.P_(pos.reg, pos.off + n_)
+                    return (0,)
+                if ins.callee and ins.callee.startswith('crc32c'):
+                    return (0,)
+                return None
+            try:
+                R = RG.Region(P, extern=ext)
+                sp = RG.P_(('obj', 'wstream'), 0)
+                wb = R.array('wbuf', [0] * 32, 1)
+                R.mem[(sp.reg, off['pos'])] = wb; R.mem[(sp.reg, off['end'])] = RG.P_(wb.reg, 32); R.mem[(sp.reg, off['crc_stream'])] = 0
+                R.run(pf, 0, [v, sp])
+                if not out:
+                    # byte-at-a-time writers (sputc) leave the bytes in the stream buffer
+                    endp = R.mem[(sp.reg, off['pos'])]
+                    out.extend(R.mem[(wb.reg, k)] & 0xff for k in range(endp.off))
+                data = list(out)
+                R = RG.Region(P, extern=ext)
+                rp = RG.P_(('obj', 'rstream'), 0)
+                rb = R.array('rbuf', data + [0x55], 1)
+                R.mem[(rp.reg, off['pos'])] = rb; R.mem[(rp.reg, off['end'])] = RG.P_(rb.reg, len(data))
+                res = R.array('value', [0] * 8, 1) if False else RG.P_(('obj', 'value'), 0)
+                rv = R.run(gf_, 0, [rp, res])
+                got = R.mem.get((res.reg, 0))
+                used = R.mem[(rp.reg, off['pos'])].off
+            except (RG.Unsupported, RG.OutOfBounds) as e:
+                raise AnalysisBroken('cannot interpret %s/%s: %s' % (put, get, e))
+            # the documented byte format (independent model): 7-bit groups, least significant first, the last byte carries 0x80
+            if put == 'sputble32':
+                exp = [(v >> (8 * k)) & 0xff for k in range(4)]
+            else:
+                exp = []; x = v
+                while True:
+                    g7 = x & 0x7f; x >>= 7
+                    if x:
+                        exp.append(g7)
+                    else:
+                        exp.append(g7 | 0x80)
+                        break
+            ok = RG.signed(rv & 0xffffffff, 32) == 0 and got == v and used == len(data) and data == exp
+            rep.check(ok, rid, '%s/%s value 0x%x' % (put, get, v), pf.file, '%d bytes' % len(data) if ok else 'written %s (format says %s), read back %s (status %s, consumed %d of %d bytes)' % (data, exp, got, rv, used, len(data)), function=get, construct='round trip %s' % put)
